@@ -361,6 +361,12 @@ func TestC12Trees(t *testing.T) {
 	vars := map[string]lang.Value{"a": lang.Int(2), "b": lang.Int(3), "c": lang.Int(5), "d": lang.Int(7), "e": lang.Int(11)}
 	rapidCheck(t, col, func(rt *rapid.T) {
 		tree := c12Tree(rt, rapid.IntRange(2, scale(5, 6)).Draw(rt, "depth"), true)
+		if gen.Uniform(rt, "consttree", 4) == 0 {
+			// literals only: the grouping is decided while the script is prepared
+			// (constant folding), intermediate results below zero and beyond 16 bits
+			tree = gen.ConstTree(rt, rapid.IntRange(2, 4).Draw(rt, "constdepth"))
+			col.Class("literal-only-tree")
+		}
 		minimal := minimalText(tree)
 		full := lang.ExprText(tree)
 		redundant := minimalText(addParens(rt, tree))
